@@ -1173,8 +1173,33 @@ pub fn c02(ctx: &Ctx) {
             let (m, full, n) = cfgs[ci];
             let mut rng = Rng::new(ctx.seed, 0x0C02_5B5B + a);
             let nh = if ctx.tier == crate::Tier::Thorough { 10 } else { 9 };
-            let (w, h, ss) = (128usize, heights[(ci + ctx.seed as usize) % nh], sss[(ci / 3) % 5]);
-            let px: Vec<[f32; 3]> = (0..w * h).map(|_| [rng.range(-0.1, 1.1) as f32, rng.range(-0.1, 1.1) as f32, rng.range(-0.1, 1.1) as f32]).collect();
+            // variant 0: random 128-wide frames of video-like heights; variants 1..: wide frames (wider than any plausible
+            // block size, not a multiple of it) of few rows whose rows repeat the row above them entirely or in their left
+            // part only (horizontal ramps, vertical bars, a flat side bar next to changing content)
+            let wides: [usize; 8] = [600, 720, 516, 1028, 1300, 1920, 264, 4100]; // multiples of 4 (every subsampling divides them)
+            for variant in 0..3usize {
+            let (w, h, ss) = if variant == 0 {
+                (128usize, heights[(ci + ctx.seed as usize) % nh], sss[(ci / 3) % 5])
+            } else {
+                (wides[(ci + variant * 3 + ctx.seed as usize) % wides.len()], [4usize, 8, 12][(ci + variant) % 3], sss[(ci / 3 + variant) % 5])
+            };
+            let px: Vec<[f32; 3]> = if variant == 0 {
+                (0..w * h).map(|_| [rng.range(-0.1, 1.1) as f32, rng.range(-0.1, 1.1) as f32, rng.range(-0.1, 1.1) as f32]).collect()
+            } else {
+                let row0: Vec<[f32; 3]> = (0..w).map(|x| if variant == 2 && x < w * 7 / 8 { [0.0625f32, 0.0625, 0.0625] } else { [rng.range(-0.1, 1.1) as f32, rng.range(-0.1, 1.1) as f32, rng.range(-0.1, 1.1) as f32] }).collect();
+                let mut v = Vec::with_capacity(w * h);
+                for y in 0..h {
+                    for x in 0..w {
+                        // variant 1: every row equals row 0; variant 2: the left 7/8 is a flat bar, the right part changes per row
+                        if variant == 2 && x >= w * 7 / 8 && y > 0 {
+                            v.push([rng.range(0.0, 1.0) as f32, rng.range(0.0, 1.0) as f32, rng.range(0.0, 1.0) as f32]);
+                        } else {
+                            v.push(row0[x]);
+                        }
+                    }
+                }
+                v
+            };
             let cfg = YuvConfig { subsampling_x: ss.0, subsampling_y: ss.1, ..cfg444(m, full, n) };
             let rgb = Rgb::new(px.clone(), w, h, TC::BT1886, CP::BT709).expect("len");
             let yuv: Yuv<u16> = match Yuv::try_from((&rgb, cfg)) {
@@ -1235,6 +1260,7 @@ pub fn c02(ctx: &Ctx) {
                 );
             }
             evals.fetch_add((w * h + 2 * cw * ch) as u64, Relaxed);
+            }
         });
         ev::observe("subsampled_video_height_frames", nfr.load(Relaxed));
     }
